@@ -226,6 +226,23 @@ class Sym:
                 if name.endswith("is_empty"):
                     return ("const", n == 0, "true" if n == 0 else "false", None)
                 return ("const", n, "%d_usize" % n, None)
+        # constant durations (`Duration::from_millis(0)` and what is asked of it)
+        m = re.match(r"^std::time::Duration::(from_secs|from_millis|from_micros|from_nanos)$", name)
+        if m and len(args) == 1 and args[0][0] == "const" and isinstance(args[0][1], int) and not isinstance(args[0][1], bool):
+            return ("dur", args[0][1] * {"from_secs": 10 ** 9, "from_millis": 10 ** 6, "from_micros": 10 ** 3, "from_nanos": 1}[m.group(1)])
+        m = re.match(r"^std::time::Duration::(as_secs|subsec_nanos|subsec_millis|subsec_micros|as_millis|as_micros|as_nanos|is_zero)$", name)
+        if m and len(args) == 1:
+            v = args[0]
+            hops = 0
+            while v is not None and v[0] == "ref" and hops < 6:
+                v = self.read_key(v[1]); hops += 1
+            if v is not None and v[0] == "dur":
+                ns = v[1]
+                r = {"as_secs": ns // 10 ** 9, "subsec_nanos": ns % 10 ** 9, "subsec_millis": (ns % 10 ** 9) // 10 ** 6, "subsec_micros": (ns % 10 ** 9) // 1000,
+                     "as_millis": ns // 10 ** 6, "as_micros": ns // 1000, "as_nanos": ns, "is_zero": ns == 0}[m.group(1)]
+                if isinstance(r, bool):
+                    return ("const", r, "true" if r else "false", None)
+                return ("const", r, "%d" % r, None)
         if name == "std::mem::swap" and len(args) == 2:
             a, b = self.deref_arg(args[0]), self.deref_arg(args[1])
             if a is not None and b is not None:
